@@ -17,6 +17,7 @@ mod c17;
 mod c18;
 mod c20;
 mod extract;
+mod observe;
 mod gen;
 use common::*;
 
@@ -91,10 +92,10 @@ fn main() {
                 o.direct(false, "C04: the library panicked in a call made by the harness", last, msg, "no panic".into());
                 o.notes.push("generation stopped early: a library call panicked".into());
             }
-            if r.is_ok() { let rr = std::panic::catch_unwind(std::panic::AssertUnwindSafe(|| o.purity_recheck(seed))); let _ = rr; }
+            if r.is_ok() { let rr = std::panic::catch_unwind(std::panic::AssertUnwindSafe(|| { o.recombine(seed, if tier == "thorough" { 400 } else { 60 }); o.purity_recheck(seed) })); let _ = rr; }
             o.write(dir);
         }
-        "extract" => { for f in extract::run(&args[2]) { println!("{}", f); } }
+        "extract" => { let reviewed = args.get(3).cloned().unwrap_or_else(|| "/verif/lean/GenReviewed".to_string()); for f in extract::run(&args[2], &reviewed) { println!("{}", f); } }
         "child" => c04::child_main(),
         "exec" => { // replay: operation lines on stdin, implementation results on stdout
             for line in std::io::stdin().lock().lines() { println!("{}", exec_line(line.unwrap().trim_end())); }
